@@ -773,6 +773,11 @@ def prod(a, *args, **kwargs):
 
 @implements(np.var)
 def var(a, *args, **kwargs):
+    mean = kwargs.get("mean")
+    if hasattr(mean, "units"):
+        # a precomputed mean is a quantity like a: express it in a's units
+        # and hand numpy the bare numbers
+        kwargs["mean"] = np.asarray(mean.to(a.units))
     return np.var._implementation(np.asarray(a), *args, **kwargs) * a.units**2
 
 
